@@ -7,6 +7,10 @@ import SkfemVerif.Drv.Integration
 import SkfemVerif.Drv.MeshIO
 import SkfemVerif.Drv.Conformity
 import SkfemVerif.Drv.Surgery
+import SkfemVerif.Drv.DofLookup
+import SkfemVerif.Drv.RefineUniformDrv
+import SkfemVerif.Drv.Autodiff
+import SkfemVerif.Drv.Affine
 /-
 Registry of driver ops contributed by the per-area files: add an import and `++ xxxOps`.
 -/
@@ -14,6 +18,6 @@ open Lean
 namespace Drv
 
 def allOps : List (String × (Json → Option Json)) :=
-  bcOps ++ quadOps ++ asmOps ++ polyOps ++ integrationOps ++ meshioOps ++ conformityOps ++ surgeryOps
+  bcOps ++ quadOps ++ asmOps ++ polyOps ++ integrationOps ++ meshioOps ++ conformityOps ++ surgeryOps ++ dofLookupOps ++ refineUniformOps ++ autodiffOps ++ affineOps
 
 end Drv
